@@ -37,6 +37,18 @@ inductive LitKind where
   | float (repr : String)
 deriving Repr, DecidableEq, Inhabited
 
+/-- Decimal digits → number (`none` for the empty list or any other character). -/
+def parseNat : List Char → Option Nat
+  | [] => none
+  | cs => cs.foldl (fun acc c => match acc with
+      | some n => if 48 ≤ c.toNat && c.toNat ≤ 57 then some (10 * n + (c.toNat - 48)) else none
+      | none => none) (some 0)
+
+/-- `str(int)` of Python / `toString` of a Lean `Int`: an optional `-` and decimal digits. -/
+def parseInt : List Char → Option Int
+  | '-' :: rest => (parseNat rest).map (fun n => -(Int.ofNat n))
+  | cs => (parseNat cs).map Int.ofNat
+
 def litKind (s : String) : LitKind :=
   if s == "None" then .none
   else if s == "True" then .bool true
@@ -44,7 +56,7 @@ def litKind (s : String) : LitKind :=
   else match s.toList with
     | '"' :: rest =>
       if rest.getLast? == some '"' then .str (String.ofList rest.dropLast) else .float s
-    | _ => match s.toInt? with
+    | cs => match parseInt cs with
       | some i => .int i
       | none => .float s
 
@@ -87,9 +99,11 @@ def toV : E → Factory.V
     | .slice x y z => .seq "slice" (padSlice [x, y, z] (toVL a))
     | .bad why => .atom (if why == "Ellipsis" then "ellipsis" else "obj")
     | _ => .atom "?"
+termination_by structural e => e
 def toVL : E → List Factory.V
   | .cons h t => toV h :: toVL t
   | _ => []
+termination_by structural e => e
 end
 
 def toNode : App → Factory.GNode
@@ -150,9 +164,11 @@ def toVal : E → Adapt.Val
     | .slice .. => .other "slice"
     | .bad why => .other (if why == "Ellipsis" then "ellipsis" else "object")
     | _ => .other "?"
+termination_by structural e => e
 def toValL : E → List Adapt.Val
   | .cons h t => toVal h :: toValL t
   | _ => []
+termination_by structural e => e
 end
 
 def toKw (kwargs : List (String × E)) : List (String × Adapt.Val) := kwargs.map (fun kv => (kv.1, toVal kv.2))
@@ -197,10 +213,12 @@ def isVarTree : E → Bool
     | .list => isVarTreeL a
     | _ => false
   | _ => false
+termination_by structural e => e
 def isVarTreeL : E → Bool
   | .cons h t => isVarTree h && isVarTreeL t
   | .nil => true
   | _ => false
+termination_by structural e => e
 end
 
 /-- The restriction under which `exec_from_compile` is proved (decidable; the harness evaluates it on every captured
@@ -250,7 +268,7 @@ def kwName : E → Option String
 def isKw (e : E) : Bool := (kwName e).isSome
 
 /-- Positional arguments and keyword names of a call event. -/
-def Event.callShape : Event → Option (E × List E × List String)
+def callShape : Event → Option (E × List E × List String)
   | .call t =>
     match callParts t with
     | some (f, rest) => some (f, rest.filter (fun e => !isKw e), rest.filterMap kwName)
